@@ -445,3 +445,140 @@ package raft
 //@ ensures (forall k uint64 :: (k in r.witnesses) == old(k in r.witnesses)) && len(r.witnesses) == old(len(r.witnesses))
 //@ loop 1 modifies entries(r.witnesses), freshof(remote.match)
 //@ loop 1 invariant (forall k uint64 :: (k in r.witnesses) == old(k in r.witnesses)) && len(r.witnesses) == old(len(r.witnesses)) && r.witnesses != nil
+
+// reset: the only place (besides becomeCandidate / handleNodeRequestVote / loadState) that writes term and vote.
+//@ func (r *raft) reset [C03 C18 C06]
+//@ requires r.wf() && r.rl != nil && r.electionTimeout > 0
+//@ modifies r.term, r.vote, r.electionTick, r.randomizedElectionTimeout, r.votes, r.heartbeatTick, r.readIndex, r.pendingConfigChange, r.leaderTransferTarget, r.matched
+//@ modifies entries(r.remotes), entries(r.nonVotings), entries(r.witnesses)
+//@ ensures r.term == term
+//@ ensures term == old(r.term) ==> r.vote == old(r.vote)
+//@ ensures term != old(r.term) ==> r.vote == NoLeader
+//@ ensures r.votes != nil && fresh(r.votes) && len(r.votes) == 0 && counttrue(r.votes) == 0 && (forall k uint64 :: !(k in r.votes))
+//@ ensures r.readIndex != nil && fresh(r.readIndex) && len(r.readIndex.queue) == 0 && r.readIndex.pending != nil && len(r.readIndex.pending) == 0
+//@ ensures !r.pendingConfigChange && r.leaderTransferTarget == NoNode
+//@ ensures (forall k uint64 :: (k in r.remotes) == old(k in r.remotes) && (k in r.nonVotings) == old(k in r.nonVotings) && (k in r.witnesses) == old(k in r.witnesses))
+//@ ensures len(r.remotes) == old(len(r.remotes)) && len(r.nonVotings) == old(len(r.nonVotings)) && len(r.witnesses) == old(len(r.witnesses))
+//@ ensures len(r.matched) == len(r.remotes) + len(r.witnesses)
+//@ ensures r.wf()
+
+// role guards (C18-R2): these return normally only from the permitted source roles
+//@ func (r *raft) becomeCandidate [C18 C03]
+//@ requires r.wf() && r.rl != nil && r.electionTimeout > 0 && r.term < MaxUint64
+//@ modifies r.state, r.term, r.vote, r.electionTick, r.randomizedElectionTimeout, r.votes, r.heartbeatTick, r.readIndex, r.pendingConfigChange, r.leaderTransferTarget, r.matched
+//@ modifies entries(r.remotes), entries(r.nonVotings), entries(r.witnesses), r.leaderID, r.leaderUpdate, r.prevLeader
+//@ ensures old(r.state) != leader && old(r.state) != nonVoting && old(r.state) != witness
+//@ ensures r.state == candidate && r.term == old(r.term) + 1 && r.vote == r.replicaID && len(r.votes) == 0 && counttrue(r.votes) == 0 && (forall k uint64 :: !(k in r.votes)) && r.wf()
+//@ ensures (forall k uint64 :: (k in r.remotes) == old(k in r.remotes) && (k in r.witnesses) == old(k in r.witnesses))
+
+//@ func (r *raft) becomePreVoteCandidate [C18 C03]
+//@ requires r.wf() && r.rl != nil && r.electionTimeout > 0
+//@ modifies r.state, r.term, r.vote, r.electionTick, r.randomizedElectionTimeout, r.votes, r.heartbeatTick, r.readIndex, r.pendingConfigChange, r.leaderTransferTarget, r.matched
+//@ modifies entries(r.remotes), entries(r.nonVotings), entries(r.witnesses), r.leaderID, r.leaderUpdate, r.prevLeader
+//@ ensures old(r.state) != leader && old(r.state) != nonVoting && old(r.state) != witness && r.preVote
+//@ ensures r.state == preVoteCandidate && r.term == old(r.term) && r.vote == old(r.vote) && len(r.votes) == 0 && counttrue(r.votes) == 0 && (forall k uint64 :: !(k in r.votes)) && r.wf()
+
+//@ func (r *raft) toFollowerState [C18 C03]
+//@ requires r.wf() && r.rl != nil && r.electionTimeout > 0
+//@ modifies r.state, r.term, r.vote, r.electionTick, r.randomizedElectionTimeout, r.votes, r.heartbeatTick, r.readIndex, r.pendingConfigChange, r.leaderTransferTarget, r.matched
+//@ modifies entries(r.remotes), entries(r.nonVotings), entries(r.witnesses), r.leaderID, r.leaderUpdate, r.prevLeader
+//@ ensures old(r.state) != witness && r.state == follower && r.term == term && r.wf()
+//@ ensures term == old(r.term) ==> r.vote == old(r.vote)
+//@ ensures term != old(r.term) ==> r.vote == NoLeader
+
+//@ func (r *raft) becomeNonVoting [C18]
+//@ requires r.wf() && r.rl != nil && r.electionTimeout > 0
+//@ modifies r.term, r.vote, r.electionTick, r.randomizedElectionTimeout, r.votes, r.heartbeatTick, r.readIndex, r.pendingConfigChange, r.leaderTransferTarget, r.matched
+//@ modifies entries(r.remotes), entries(r.nonVotings), entries(r.witnesses), r.leaderID, r.leaderUpdate, r.prevLeader
+//@ ensures old(r.state) == nonVoting && r.state == nonVoting && r.term == term
+
+//@ func (r *raft) becomeWitness [C18]
+//@ requires r.wf() && r.rl != nil && r.electionTimeout > 0
+//@ modifies r.term, r.vote, r.electionTick, r.randomizedElectionTimeout, r.votes, r.heartbeatTick, r.readIndex, r.pendingConfigChange, r.leaderTransferTarget, r.matched
+//@ modifies entries(r.remotes), entries(r.nonVotings), entries(r.witnesses), r.leaderID, r.leaderUpdate, r.prevLeader
+//@ ensures old(r.state) == witness && r.state == witness && r.term == term
+
+// vote counting: one entry per sender, first answer wins, result = number of granted votes
+//@ func (r *raft) handleVoteResp [C03 C18]
+//@ requires r.votes != nil
+//@ modifies entries(r.votes)
+//@ ensures old(from in r.votes) ==> (forall k uint64 :: (k in r.votes) == old(k in r.votes) && r.votes[k] == old(r.votes[k]))
+//@ ensures !old(from in r.votes) ==> from in r.votes && r.votes[from] == !rejected && len(r.votes) == old(len(r.votes)) + 1 &&
+//@    (forall k uint64 :: k != from ==> (k in r.votes) == old(k in r.votes) && r.votes[k] == old(r.votes[k]))
+//@ ensures result == counttrue(r.votes) && result >= 0
+//@ ensures !old(from in r.votes) ==> result == old(counttrue(r.votes)) + ite(rejected, 0, 1)
+//@ ensures old(from in r.votes) ==> result == old(counttrue(r.votes))
+//@ loop 1 invariant votedFor == countvisited(r.votes) && (forall k int :: visited(k) ==> k in r.votes) && r.votes != nil && votedFor <= itersteps() && itersteps() <= len(r.votes)
+
+// R1: the voting members are exactly remotes ∪ witnesses (non-voting members never count)
+//@ func (r *raft) votingMembers [C18 C03 C06]
+//@ requires r.remotes != nil && r.witnesses != nil
+//@ ensures result != nil && fresh(result)
+//@ ensures forall k uint64 :: (k in result) == (k in r.remotes || k in r.witnesses)
+//@ ensures forall k uint64 :: k in r.remotes ==> result[k] == r.remotes[k]
+//@ loop 1 modifies entries(nodes)
+//@ loop 1 invariant nodes != nil && fresh(nodes) && (forall k uint64 :: (k in nodes) == visited(k)) && (forall k uint64 :: visited(k) ==> k in r.remotes && nodes[k] == r.remotes[k])
+//@ loop 2 modifies entries(nodes)
+//@ loop 2 invariant nodes != nil && fresh(nodes) && (forall k uint64 :: (k in nodes) == (k in r.remotes || visited(k))) && (forall k uint64 :: visited(k) ==> k in r.witnesses)
+//@ loop 2 invariant forall k uint64 :: k in r.remotes && !visited(k) ==> nodes[k] == r.remotes[k]
+
+// heavy callees of becomeLeader whose bodies are not (yet) under contract
+//@ func (r *raft) preLeaderPromotionHandleConfigChange [C03]
+//@ trusted body not verified: scans the uncommitted log suffix for config-change entries
+//@ modifies r.pendingConfigChange
+
+//@ func (r *raft) appendEntries [C03]
+//@ trusted body not verified here (stamps term/index on the entries, appends them, updates own match, may commit on single-node quorum)
+//@ requires r.wf()
+//@ modifies r.log.inmem.markerIndex, r.log.inmem.shrunk, r.log.inmem.entries, r.log.inmem.savedTo, elems(r.log.inmem.entries[len(r.log.inmem.entries):]), r.log.committed, r.matched, allof(remote.match), allof(remote.next)
+//@ ensures r.wf()
+
+//@ func (r *raft) broadcastReplicateMessage [C03]
+//@ trusted body not verified here (builds Replicate messages for every peer)
+//@ requires r.wf()
+//@ modifies r.msgs, elems(r.msgs[len(r.msgs):]), allof(remote.next), allof(remote.state), allof(remote.active), allof(remote.snapshotIndex)
+//@ ensures r.wf()
+
+// V3: leadership is assumed only by a candidate holding granted votes from a quorum of distinct voters
+//@ func (r *raft) becomeLeader [C03 C18]
+//@ requires r.wf() && r.rl != nil && r.electionTimeout > 0
+//@ requires r.state == candidate && counttrue(r.votes) == (len(r.remotes) + len(r.witnesses)) / 2 + 1
+//@ modifies r.state, r.term, r.vote, r.electionTick, r.randomizedElectionTimeout, r.votes, r.heartbeatTick, r.readIndex, r.pendingConfigChange, r.leaderTransferTarget, r.matched
+//@ modifies entries(r.remotes), entries(r.nonVotings), entries(r.witnesses), r.leaderID, r.leaderUpdate, r.prevLeader
+//@ modifies r.log.inmem.markerIndex, r.log.inmem.shrunk, r.log.inmem.entries, r.log.inmem.savedTo, elems(r.log.inmem.entries[len(r.log.inmem.entries):]), r.log.committed, allof(remote.match), allof(remote.next)
+//@ ensures r.state == leader && r.term == old(r.term) && r.vote == old(r.vote) && r.leaderID == r.replicaID && r.wf()
+//@ ensures len(r.remotes) == old(len(r.remotes)) && len(r.witnesses) == old(len(r.witnesses)) && len(r.nonVotings) == old(len(r.nonVotings))
+
+//@ func (r *raft) campaign [C03 C18]
+//@ noframe
+//@ requires r.wf() && r.rl != nil && r.electionTimeout > 0 && r.term < MaxUint64
+//@ modifies r.state, r.term, r.vote, r.electionTick, r.randomizedElectionTimeout, r.votes, r.heartbeatTick, r.readIndex, r.pendingConfigChange, r.leaderTransferTarget, r.matched
+//@ modifies entries(r.remotes), entries(r.nonVotings), entries(r.witnesses), r.leaderID, r.leaderUpdate, r.prevLeader, entries(r.votes), r.isLeaderTransferTarget
+//@ modifies r.log.inmem.markerIndex, r.log.inmem.shrunk, r.log.inmem.entries, r.log.inmem.savedTo, elems(r.log.inmem.entries[len(r.log.inmem.entries):]), r.log.committed, allof(remote.match), allof(remote.next)
+//@ modifies r.msgs, elems(r.msgs[len(r.msgs):])
+//@ ensures old(r.state) != leader && old(r.state) != nonVoting && old(r.state) != witness
+//@ ensures r.term == old(r.term) + 1 && r.vote == r.replicaID
+//@ ensures r.state == candidate || (r.state == leader && (len(r.remotes) + len(r.witnesses)) / 2 + 1 == 1)
+
+//@ func (r *raft) handleCandidateRequestVoteResp [C03 C18]
+//@ requires r.wf() && r.rl != nil && r.electionTimeout > 0 && r.state == candidate
+//@ modifies r.state, r.term, r.vote, r.electionTick, r.randomizedElectionTimeout, r.votes, r.heartbeatTick, r.readIndex, r.pendingConfigChange, r.leaderTransferTarget, r.matched
+//@ modifies entries(r.remotes), entries(r.nonVotings), entries(r.witnesses), r.leaderID, r.leaderUpdate, r.prevLeader, entries(r.votes)
+//@ modifies r.log.inmem.markerIndex, r.log.inmem.shrunk, r.log.inmem.entries, r.log.inmem.savedTo, elems(r.log.inmem.entries[len(r.log.inmem.entries):]), r.log.committed, allof(remote.match), allof(remote.next)
+//@ modifies r.msgs, elems(r.msgs[len(r.msgs):]), allof(remote.state), allof(remote.active), allof(remote.snapshotIndex)
+// R7: an answer from a non-voting member changes nothing
+//@ ensures old(m.From in r.nonVotings) ==> r.state == old(r.state) && r.votes == old(r.votes) && (forall k uint64 :: (k in r.votes) == old(k in r.votes))
+//@ ensures r.term == old(r.term) && r.vote == old(r.vote)
+//@ ensures r.state == leader || r.state == candidate || r.state == follower
+
+// C07 (raft side): no campaign while a committed membership change is not yet applied
+//@ func (r *raft) handleNodeElection [C07 C18 C03]
+//@ noframe
+//@ requires r.wf() && r.rl != nil && r.electionTimeout > 0 && r.term < MaxUint64 && r.hasNotAppliedConfigChange == nil
+//@ modifies r.state, r.term, r.vote, r.electionTick, r.randomizedElectionTimeout, r.votes, r.heartbeatTick, r.readIndex, r.pendingConfigChange, r.leaderTransferTarget, r.matched
+//@ modifies entries(r.remotes), entries(r.nonVotings), entries(r.witnesses), r.leaderID, r.leaderUpdate, r.prevLeader, entries(r.votes), r.isLeaderTransferTarget
+//@ modifies r.log.inmem.markerIndex, r.log.inmem.shrunk, r.log.inmem.entries, r.log.inmem.savedTo, elems(r.log.inmem.entries[len(r.log.inmem.entries):]), r.log.committed, allof(remote.match), allof(remote.next)
+//@ modifies r.msgs, elems(r.msgs[len(r.msgs):])
+//@ ensures old(r.state) != leader && old(r.log.committed) > old(r.applied) ==> r.state == old(r.state) && r.term == old(r.term) && r.vote == old(r.vote) && len(r.msgs) == old(len(r.msgs))
+//@ ensures old(r.state) == leader ==> r.state == leader && r.term == old(r.term)
+//@ ensures r.state != old(r.state) ==> old(r.state) != nonVoting && old(r.state) != witness
